@@ -489,6 +489,11 @@ impl<C: Config> Engine<C> {
             }
         }
 
+        #[cfg(feature = "verif")]
+        if nodes[0].reaches_target {
+            qbice_verif_rt::events::cycle_detected();
+        }
+
         nodes[0].reaches_target
     }
 
